@@ -693,23 +693,35 @@ def run(chk):
     # ------------------------------------------------------------ multi electron element placement
     for cname in ("BasisMultiElectron", "BasisMultiElectronVac"):
         fi = src.func(BASIS, f"{cname}.op_mat")
-        found = 0
+        two = [n for n in fi.node.body if isinstance(n, ast.If)]
+        branch = None
         for n in ast.walk(fi.node):
-            if isinstance(n, ast.If):
-                t = unparse(n.test).replace(" ", "")
-                if "op_symbol1==" in t and "op_symbol2==" in t:
-                    first_is_dag = "op_symbol1=='a^\\\\dagger'" in t
-                    for s in n.body:
-                        if isinstance(s, ast.Assign) and isinstance(s.targets[0], ast.Subscript) and unparse(s.targets[0].value) == "mat":
-                            idx = [unparse(x).replace("int(", "").replace(")", "") for x in s.targets[0].slice.elts]
-                            want = ["op_symbol1_idx", "op_symbol2_idx"] if first_is_dag else ["op_symbol2_idx", "op_symbol1_idx"]
-                            found += 1
-                            chk.ob("multi-electron", f"{cname}: {t[:60]}", idx == want and unparse(s.value) in ("1.0", "1", "1."), fi.where,
-                                   idx, want, line=s.lineno,
-                                   detail="the single 1 of a^dagger_i a_j must sit at [index of the a^dagger DoF, index of the a DoF]")
-        if found < 2:
-            raise AnalysisError(f"{cname}.op_mat: two-operator placement branches not found")
+            if isinstance(n, ast.If) and unparse(n.test).replace(" ", "") == "len(op_symbol)==2":
+                branch = n.body
+        if branch is None:
+            raise AnalysisError(f"{cname}.op_mat: two-symbol branch not found")
+        for s1, s2, want in ((r"a^\dagger", "a", ["op_symbol1_idx", "op_symbol2_idx"]), ("a", r"a^\dagger", ["op_symbol2_idx", "op_symbol1_idx"])):
+            se = StrEval({"op_symbol1": s1, "op_symbol2": s2}, {})
+            placed = []
 
+            def walk(stmts):
+                for st in stmts:
+                    if isinstance(st, ast.If):
+                        try:
+                            c = se.ev(st.test)
+                        except AnalysisError:
+                            raise AnalysisError(f"{cname}.op_mat: condition {unparse(st.test)[:60]} not evaluable for symbols ({s1}, {s2})")
+                        walk(st.body if c else st.orelse)
+                    elif isinstance(st, ast.Assign) and isinstance(st.targets[0], ast.Subscript) and unparse(st.targets[0].value) == "mat":
+                        idx = [unparse(x).replace("int(", "").replace(")", "") for x in st.targets[0].slice.elts]
+                        placed.append((idx, unparse(st.value)))
+                    elif isinstance(st, ast.Raise):
+                        placed.append(("raise", ""))
+            walk(branch)
+            ok = len(placed) == 1 and placed[0][0] == want and placed[0][1] in ("1.0", "1", "1.")
+            chk.ob("multi-electron", f"{cname}: ({s1}, {s2})", ok, fi.where, placed, [want, "1.0"], line=fi.node.lineno,
+                   detail=f"{cname}.op_mat: for the symbol pair ({s1} on DoF i, {s2} on DoF j) the single 1 must sit at [index of the a^dagger DoF, index of the a DoF]; "
+                          f"a_i a_j^dagger is the Hermitian conjugate of a_i^dagger a_j, not the same matrix")
     holstein_rule(chk, src)
     # ------------------------------------------------------------ copy forward
     base = src.cls(BASIS, "BasisSet")
